@@ -12,9 +12,11 @@ package service
 
 import (
 	gocontext "context"
+	"encoding/json"
 	"time"
 
 	mqtt "github.com/eclipse/paho.mqtt.golang"
+	"go.mongodb.org/mongo-driver/bson/primitive"
 	clientconstants "github.com/orda-io/orda/client/pkg/constants"
 	"github.com/orda-io/orda/client/pkg/context"
 	"github.com/orda-io/orda/client/pkg/iface"
@@ -225,4 +227,116 @@ func VF_Real_LongPull() {
 	rz, ez := w.pushPull("colA", rX, &model.PushPullPack{Key: "k", DUID: rD, Option: uint32(model.PushPullBitNormal), Type: model.TypeOfDatatype_COUNTER,
 		CheckPoint: &model.CheckPoint{Sseq: seq, Cseq: seq}, Operations: []*model.Operation{rOp(rX, seq+1, 9000, false)}})
 	vf.Assert(ez == nil && rz != nil && !hasErrBit(rz) && len(rz.Operations) == 2, "C06 the next push is accepted and pulls y's two operations")
+}
+
+// VF_Real_Patch (C19, C11, C18): REST patches at the real-repository tier.  A
+// document is created by a first patch (or by a client's push), patched again,
+// and after the post-commit work has run the stored snapshot and the user-visible
+// document are what the log replays to, at the version they record; each patch
+// that stored operations was announced once.
+func VF_Real_Patch() {
+	w := vfNewRealWorld()
+	_, e1 := w.svc.CreateCollection(gocontext.TODO(), &model.CollectionMessage{Collection: "colA"})
+	vf.Assert(e1 == nil, "setup")
+	targets := []string{`{"a":"1","b":{"c":"x"}}`, `{"a":["p","q"],"n":7}`, `{"a":["p","r","s"],"n":1e19}`, `{}`}
+	t1 := targets[vf.Choice("first", 3)]
+	t2 := targets[vf.Choice("second", 4)]
+	want2 := map[string]interface{}{}
+	r1, err1 := w.svc.PatchDocument(gocontext.TODO(), &model.PatchMessage{Collection: "colA", Key: "doc", Json: t1})
+	vf.Assert(err1 == nil && r1 != nil, "C19 the first patch creates the document")
+	vf.Quiesce()
+	r2, err2 := w.svc.PatchDocument(gocontext.TODO(), &model.PatchMessage{Collection: "colA", Key: "doc", Json: t2})
+	vf.Assert(err2 == nil && r2 != nil, "C19 the second patch is answered")
+	vf.Quiesce()
+	vf.Reach("patched")
+	vf.Assert(json.Unmarshal([]byte(t2), &want2) == nil, "target parses")
+	var got2 map[string]interface{}
+	vf.Assert(json.Unmarshal([]byte(r2.Json), &got2) == nil && realViewEq(got2, want2), "C19 the response JSON equals the target")
+	ca, _ := w.repo.GetCollection(rctx(), "colA")
+	d, _ := w.repo.GetDatatypeByKey(rctx(), ca.Num, "doc")
+	vf.Assert(d != nil, "C19 the document exists")
+	ops, sseqs, _ := w.repo.GetOperations(rctx(), d.DUID, 1, constants.InfinitySseq)
+	vf.Assert(uint64(len(ops)) == d.Sseq.End && len(sseqs) == len(ops), "C06 the log is as long as its recorded end")
+	for i, s := range sseqs {
+		vf.Assert(s == uint64(i+1), "C06 server sequence numbers 1..n without gaps")
+	}
+	snap, _ := w.repo.GetLatestSnapshot(rctx(), ca.Num, d.DUID)
+	vf.Assert(snap != nil && snap.Sseq == d.Sseq.End, "C11 the stored snapshot is at the end of the log")
+	user, _ := w.repo.GetRealSnapshot(rctx(), "colA", "doc")
+	vf.Assert(user != nil, "C11 the user-visible document exists")
+	ver, _ := user[mongodb.Ver]
+	delete(user, "_id")
+	delete(user, mongodb.Ver)
+	vf.Assert(realViewEq(user, want2), "C11/C19 the user-visible document equals the target of the last patch")
+	vf.Assert(realNum(ver) == float64(d.Sseq.End), "C11 the user-visible document records the version it shows")
+	changed := 1
+	if !realViewEq(parse(t1), want2) {
+		changed = 2
+	}
+	vf.Assert(w.mq.published == changed, "C18 each patch that stored operations is announced exactly once")
+}
+
+func parse(s string) map[string]interface{} {
+	m := map[string]interface{}{}
+	_ = json.Unmarshal([]byte(s), &m)
+	return m
+}
+
+func realNum(v interface{}) float64 {
+	switch x := v.(type) {
+	case float64:
+		return x
+	case int64:
+		return float64(x)
+	case int32:
+		return float64(x)
+	case uint64:
+		return float64(x)
+	}
+	return -1
+}
+
+// realViewEq: JSON views are equal (documents come back from the driver as primitive.M / primitive.A).
+func realViewEq(a, b interface{}) bool {
+	if m, ok := a.(primitive.M); ok {
+		a = map[string]interface{}(m)
+	}
+	if m, ok := b.(primitive.M); ok {
+		b = map[string]interface{}(m)
+	}
+	if l, ok := a.(primitive.A); ok {
+		a = []interface{}(l)
+	}
+	if l, ok := b.(primitive.A); ok {
+		b = []interface{}(l)
+	}
+	switch x := a.(type) {
+	case map[string]interface{}:
+		y, ok := b.(map[string]interface{})
+		if !ok || len(x) != len(y) {
+			return false
+		}
+		for k, v := range x {
+			w, ok := y[k]
+			if !ok || !realViewEq(v, w) {
+				return false
+			}
+		}
+		return true
+	case []interface{}:
+		y, ok := b.([]interface{})
+		if !ok || len(x) != len(y) {
+			return false
+		}
+		for i := range x {
+			if !realViewEq(x[i], y[i]) {
+				return false
+			}
+		}
+		return true
+	}
+	if fa := realNum(a); fa != -1 {
+		return realNum(b) == fa
+	}
+	return a == b
 }
